@@ -6595,6 +6595,49 @@ func rulePointerScriptMatch(c *Ctx) {
 			return true
 		})
 	}
+	// ... and that compare the script by content: a method with a []byte parameter that reads the field hands both to
+	// bytes.Equal / slices.Equal / bytes.Compare (two versions of a contract's script can have one length)
+	for _, m := range c.P.AllFuncDecls() {
+		if m.Pkg != pk || m.Decl.Body == nil || !readsScript[FuncKey(m.Obj)] {
+			continue
+		}
+		sig := m.Obj.Type().(*types.Signature)
+		if sig.Params().Len() != 1 || sig.Results().Len() != 1 || !isBoolType(sig.Results().At(0).Type()) {
+			continue
+		}
+		param := sig.Params().At(0)
+		byContent := false
+		ast.Inspect(m.Decl.Body, func(x ast.Node) bool {
+			call, ok := x.(*ast.CallExpr)
+			if !ok || len(call.Args) != 2 {
+				return true
+			}
+			switch types.ExprString(call.Fun) {
+			case "bytes.Equal", "slices.Equal", "bytes.Compare":
+			default:
+				return true
+			}
+			field, par := false, false
+			for _, a := range call.Args {
+				if se, ok := ast.Unparen(a).(*ast.SelectorExpr); ok && se.Sel.Name == "script" {
+					field = true
+				}
+				if id, ok := ast.Unparen(a).(*ast.Ident); ok && m.Pkg.TypesInfo.ObjectOf(id) == param {
+					par = true
+				}
+			}
+			if field && par {
+				byContent = true
+			}
+			return true
+		})
+		key := "pointer-script-match.by-content:" + shortSym(FuncKey(m.Obj))
+		if byContent {
+			c.OK(key, c.P.Pos(m.Decl.Pos()), "the pointer's script is compared with the given one byte by byte")
+		} else {
+			c.Fail(key, c.P.Pos(m.Decl.Pos()), FuncKey(m.Obj)+" decides whether the pointer belongs to a script without comparing the scripts' contents: two versions of one contract (same hash) with equal length and another instruction layout are taken for the same script, and CALLA follows a pointer of the old version into the middle of an operand of the new one")
+		}
+	}
 	f := c.P.NewFuncCFG(fd)
 	info := f.Info
 	found, ok2 := false, false
